@@ -234,3 +234,36 @@ Proof.
   - unfold bytes. repeat constructor.
   - repeat split; vm_compute; discriminate.
 Qed.
+
+(** ** what the specification tuples compute, as plain functions on numbers *)
+Lemma run_spec_565 : forall r g b a, run spec_565 [r; g; b; a] = [quant 5 r; quant 6 g; quant 5 b; 255].
+Proof. reflexivity. Qed.
+Lemma run_spec_565_rb_swapped : forall r g b a, run spec_565_rb_swapped [r; g; b; a] = [quant 5 b; quant 6 g; quant 5 r; 255].
+Proof. reflexivity. Qed.
+Lemma run_spec_4444 : forall r g b a, run spec_4444 [r; g; b; a] = [quant 4 r; quant 4 g; quant 4 b; quant 4 a].
+Proof. reflexivity. Qed.
+Lemma run_spec_5551 : forall r g b a, run spec_5551 [r; g; b; a] = [quant 5 r; quant 5 g; quant 5 b; alpha1 a].
+Proof. reflexivity. Qed.
+Lemma run_spec_x5551 : forall r g b a, run spec_x5551 [r; g; b; a] = [quant 5 r; quant 5 g; quant 5 b; 255].
+Proof. reflexivity. Qed.
+Lemma run_spec_i8 : forall r g b a, run spec_i8 [r; g; b; a] = [grey r g b; grey r g b; grey r g b; 255].
+Proof. reflexivity. Qed.
+Lemma run_spec_ia88 : forall r g b a, run spec_ia88 [r; g; b; a] = [grey r g b; grey r g b; grey r g b; a].
+Proof. reflexivity. Qed.
+Lemma run_spec_rgba : forall r g b a, run spec_rgba [r; g; b; a] = [r; g; b; a].
+Proof. reflexivity. Qed.
+Lemma run_spec_rgb : forall r g b a, run spec_rgb [r; g; b; a] = [r; g; b; 255].
+Proof. reflexivity. Qed.
+Lemma run_spec_a8 : forall r g b a, run spec_a8 [r; g; b; a] = [0; 0; 0; a].
+Proof. reflexivity. Qed.
+Lemma run_spec_uv88 : forall r g b a, run spec_uv88 [r; g; b; a] = [r; g; 0; 255].
+Proof. reflexivity. Qed.
+Lemma grey_of_grey : forall v, grey v v v = v.
+Proof. intros v. unfold grey. replace (v + v + v) with (v * 3) by lia. apply N.div_mul. discriminate. Qed.
+Lemma grey_is_floor_mean : forall r g b, 3 * grey r g b <= r + g + b < 3 * grey r g b + 3.
+Proof.
+  intros r g b. unfold grey. generalize (r + g + b). intros s.
+  pose proof (N.div_mod s 3 ltac:(discriminate)) as H1.
+  pose proof (N.mod_lt s 3 ltac:(discriminate)) as H2.
+  remember (s / 3) as q. remember (s mod 3) as m. lia.
+Qed.
